@@ -289,6 +289,7 @@ type Obligation struct {
 	Goal   string
 	Expect string // "unsat" (default, proof) or "sat" (cover: must NOT be unsat)
 	Note   string
+	Alt    string // obligations sharing Alt are alternatives: one discharged alternative suffices
 	Preset bool // decided by a static analysis of the engine, not by a solver
 	World  *World
 	// results
